@@ -96,7 +96,7 @@ func runC20(c *mon.Ctx) {
 		for otherUser == user {
 			otherUser = gen.Pick(r, users)
 		}
-		dur := gen.Pick(r, []int{0, 30, 120, 3600, 86400, 59, 60, 61})
+		dur := gen.Pick(r, []int{0, 30, 120, 3600, 86400, 59, 60, 61, 1 << 40, 9223372036854775807, 9223372036854774807})
 		ar := r.Fork("alter")
 		desc := map[string]any{"secret_hex": fmt.Sprintf("%x", secret), "server": server, "user": user, "duration": dur}
 		c.Case("token", desc, func() {
@@ -242,6 +242,10 @@ func runC20(c *mon.Ctx) {
 				d = 120
 			}
 			absolute := expiry >= before+d-1 && expiry <= after+d+1
+			if d > 1<<62 {
+				// issue instant + duration is beyond the int64 range: any expiry that far away will do
+				absolute = expiry > 1<<62
+			}
 			future := strconv.FormatInt(after+3600, 10)
 			uc := tokens.UserPrefix + user
 			if absolute {
